@@ -9,6 +9,6 @@ prop=$(/venv/bin/python -c "import json,sys; print(json.load(open('$d/meta.json'
 if [ -n "$(git -C /repo status --porcelain --untracked-files=no)" ]; then echo "ERROR: /repo has uncommitted changes"; exit 2; fi
 git -C /repo apply "$d/patch.diff" || { echo "ERROR: patch does not apply"; exit 2; }
 trap 'git -C /repo checkout -- . ' EXIT
-out=$(cd /verif && timeout 600 ./vcheck "$prop" --budget-s "$budget" 2>&1); rc=$?
+out=$(cd /verif && VERIF_SCRATCH_EVIDENCE=1 timeout 600 ./vcheck "$prop" --budget-s "$budget" 2>&1); rc=$?
 echo "$out" | grep -E "violated:|VIOLATION|ERROR|KNOWN" | head -8
 if [ $rc -eq 1 ] && echo "$out" | grep -q "VIOLATION property=$prop"; then echo "RESULT $id $prop CAUGHT"; else echo "RESULT $id $prop MISSED rc=$rc"; fi
